@@ -520,3 +520,50 @@ def stopping(action="stop", handler_stop=False, pending=0, sources=1, times=2, d
   sc.info = {"action": action, "handler_stop": handler_stop, "timer_tids": timer_tids, "sources": sources, "pending": pending, "capacity": capacity,
              "times": times, "deferred": deferred, "other_source": other_source, "flags": [f.name for f in flags]}
   return sc
+
+
+# ---- signal registry under threads (C25) -----------------------------------------------------------------------------------
+def registry(ops=(("append", "N1"), ("append", "N2"))):
+  """each thread performs one first use on the shared signal registry: ('append', name) = SignalSource.append(name) then a lookup of
+  its number; ('event', name) = Event(signal=name); ('event_number', n) = Event(signal=n) (the reverse-lookup loop)"""
+  import miros.event as ev
+  sc = Scenario("registry")
+  names = {"ENTRY_SIGNAL": 1, "EXIT_SIGNAL": 2}
+  items = [(sc.strings.code(k), v) for k, v in names.items()]
+  reg = sc.add(M.MDict("signals", 4, items=items))
+  sc.elem_typ["signals"] = "str"
+  real = ev.SignalSource()
+  attrs = bind_instance(sc, real, "signals", {"highest_inner_signal": 2})
+  robj = PyObj(ev.SignalSource, attrs, "signals", model=reg)
+  sc.by_identity.append((ev.signals, SP(robj)))
+  sc.globals["signals"] = SP(robj)
+  sc.ignored_attr_stores |= {"signal", "signal_name", "payload"}
+  src = """
+  def do_append(reg, name):
+    reg.append(name)
+    r = reg[name]
+    record(r)
+
+  def do_event(make, arg):
+    make(arg)
+  """
+  for t, (kind, arg) in enumerate(ops):
+    sc.ghost["res.%d" % t] = 0
+    c = Compiler(sc, t, "%s%d" % (kind, t))
+
+    def record(comp, args, kwargs, _t=t):
+      x = comp.intx(args[0])
+      comp.ghost(lambda B, st, tid, _x=x: {"res.%d" % _t: ir.evint(_x, st, B)}, "record", uses=[x])
+      return SK(NONE, None)
+    if kind == "append":
+      c.call_function(SF(node=driver(src, "do_append"), closure={"record": SI(record)}, qualname="scenario.do_append", globs={}),
+                      [SP(robj), SK(sc.strings.code(arg), arg)], {})
+    else:
+      eobj = PyObj(ev.Event, {}, "event%d" % t)
+      init = ev.Event.__dict__["__init__"]
+      val = SK(sc.strings.code(arg), arg) if isinstance(arg, str) else SK(arg, arg)
+      c.call_function(SF(fn=init, self_val=SP(eobj), defcls=ev.Event), [val], {})
+    sc.programs.append(c.finish())
+  sc.info = {"ops": [list(o) for o in ops], "lock_attrs": [k for k, v in attrs.items() if isinstance(v, M.MRLock)], "initial_size": len(items),
+             "codes": dict(sc.strings.codes)}
+  return sc
